@@ -227,18 +227,19 @@ def weave_fn(unit, tmpl_rel, blk):
                 raise ExtractError('lost anchor: loop %d of %s (function has %d loops)'
                                    % (n, blk['addr'], len(loops)))
             inserts.setdefault(loops[n - 1][1], []).append((lines, 'loop%d' % n))
-        elif kind in ('before', 'after'):
+        elif kind in ('before', 'after', 'beforeeach', 'aftereach'):
             rx = re.compile(arg)
             body_first_line = sig_nl  # index into orig_lines of the body's first line
             # match on original source lines of the body
             hits = [i for i in range(body_first_line, len(orig_lines)) if rx.search(orig_lines[i])]
-            if len(hits) != 1:
+            if (len(hits) != 1 and not kind.endswith('each')) or len(hits) == 0:
                 raise ExtractError('lost anchor: %s /%s/ in %s matched %d lines'
                                    % (kind, arg, blk['addr'], len(hits)))
-            li = hits[0] - body_first_line   # line index within body text
             body_lines = body.split('\n')
-            off = sum(len(x) + 1 for x in body_lines[:li + (1 if kind == 'after' else 0)])
-            inserts.setdefault(off, []).append((lines, kind))
+            for h in hits:
+                li = h - body_first_line   # line index within body text
+                off = sum(len(x) + 1 for x in body_lines[:li + (1 if kind.startswith('after') else 0)])
+                inserts.setdefault(off, []).append((lines, kind))
     if unit.prologue and 'external_body' not in blk['flags']:
         pt, prel, pln = unit.prologue
         inserts.setdefault(1, []).insert(0, ([('        ' + pt, pln)], 'prologue'))
@@ -356,6 +357,12 @@ def load_template(unit, path, srcmap, seen=None):
                     break
                 if ts.startswith('//@loop '):
                     cur = ('loop', ts.split()[1], [])
+                    blk['sections'].append(cur)
+                elif ts.startswith('//@beforeeach '):
+                    cur = ('beforeeach', parse_regex_arg(ts[len('//@beforeeach '):], 'beforeeach'), [])
+                    blk['sections'].append(cur)
+                elif ts.startswith('//@aftereach '):
+                    cur = ('aftereach', parse_regex_arg(ts[len('//@aftereach '):], 'aftereach'), [])
                     blk['sections'].append(cur)
                 elif ts.startswith('//@before '):
                     cur = ('before', parse_regex_arg(ts[len('//@before '):], 'before'), [])
